@@ -4,7 +4,7 @@
 // converting to and from i64 is the identity.
 //
 // Specification side: the mathematical result of + - and unary - is computed in i128 (exact for two i64); for * see
-// `m_mul` (i128 product through one oracle lemma), for / see `m_div`.  Each operator is proved equal to it under the WEAKEST precondition under which
+// `m_mul`, for / see `m_div`.  Each operator is proved equal to it under the WEAKEST precondition under which
 // an exact i64 result exists at all: the mathematical result lies in [i64::MIN, i64::MAX] and the divisor is not 0
 // (A7).  That the precondition is the weakest one is shown twice: `kani::cover!` of operand pairs whose result is
 // i64::MAX resp. i64::MIN (cases adjacent to overflow lie inside it; 2^63-1 = 7 * 1317624576693539401) and a companion `*_outside_precondition_panics` obligation (dev
@@ -19,10 +19,10 @@ const HI: i128 = i64::MAX as i128;
 fn exact(x: i128) -> bool { x >= LO && x <= HI }
 fn m_add(a: i64, b: i64) -> Option<i128> { Some(a as i128 + b as i128) }
 fn m_sub(a: i64, b: i64) -> Option<i128> { Some(a as i128 - b as i128) }
-/// Product: `checked_mul`, which `c18_oracle_checked_mul_is_exact_product` proves to be the mathematical (i128) product
-/// exactly when that product is an i64 -- one 128-bit reference multiplication (Kissat) instead of one per obligation.
-/// The * obligations use cvc5: bit-vector congruence identifies the operator's product with the oracle's (SAT does not).
-fn m_mul(a: i64, b: i64) -> Option<i128> { match a.checked_mul(b) { Some(p) => Some(p as i128), None => None } }
+/// Product: the 128-bit reference product (Kissat; about 10 s per obligation on an idle machine, CaDiCaL 70 s).  Comparing
+/// with `checked_mul` instead is instantaneous for cvc5 on the unchanged tree, but on mutated code cvc5 times out instead of
+/// producing the counterexample, so the slower, decisive encoding is kept.
+fn m_mul(a: i64, b: i64) -> Option<i128> { Some(a as i128 * b as i128) }
 /// Division: the precondition is explicit; the quotient oracle is Rust's own i64 `/` (truncation toward zero).  A 128-bit
 /// reference quotient, or the defining identity a = q*b + rem through a 64x64->128 multiplier, does not finish under any
 /// available solver (10 min, CaDiCaL / Kissat / cvc5 / z3), so for `/` the independent part is the (explicit, weakest) precondition and
@@ -152,13 +152,13 @@ int_neg!(c18_time_neg, T);
 //@ob fn="<Time as Neg>::neg" at=src/dimensions.rs:189 clause="dev profile: -Time(i64::MIN) panics"
 int_neg_outside!(c18_time_neg_outside_precondition_panics, T);
 //@ob fn="<Time as Mul<DimensionlessInteger>>::mul" at=src/dimensions.rs:195 clause="Time * DimensionlessInteger == the exact product as a Time, whenever the product is an i64 (weakest precondition)"
-int_bin!(c18_time_mul_dint, T, D, T, *, m_mul, cvc5, (i64::MAX / 7, 7), (i64::MIN / 2, 2));
+int_bin!(c18_time_mul_dint, T, D, T, *, m_mul, kissat, (i64::MAX / 7, 7), (i64::MIN / 2, 2));
 //@ob fn="<Time as Mul<DimensionlessInteger>>::mul" at=src/dimensions.rs:195 clause="dev profile: product outside i64 => panics"
-int_bin_outside!(c18_time_mul_dint_outside_precondition_panics, T, D, *, m_mul, cvc5);
+int_bin_outside!(c18_time_mul_dint_outside_precondition_panics, T, D, *, m_mul, kissat);
 //@ob fn="<Time as MulAssign<DimensionlessInteger>>::mul_assign" at=src/dimensions.rs:201 clause="Time *= DimensionlessInteger == the exact product, whenever it is an i64 (weakest precondition)"
-int_assign!(c18_time_mul_assign_dint, T, D, *=, m_mul, cvc5, (i64::MAX / 7, 7), (i64::MIN / 2, 2));
+int_assign!(c18_time_mul_assign_dint, T, D, *=, m_mul, kissat, (i64::MAX / 7, 7), (i64::MIN / 2, 2));
 //@ob fn="<Time as MulAssign<DimensionlessInteger>>::mul_assign" at=src/dimensions.rs:201 clause="dev profile: product outside i64 => panics"
-int_assign_outside!(c18_time_mul_assign_dint_outside_precondition_panics, T, D, *=, m_mul, cvc5);
+int_assign_outside!(c18_time_mul_assign_dint_outside_precondition_panics, T, D, *=, m_mul, kissat);
 //@ob fn="<Time as Div<DimensionlessInteger>>::div" at=src/dimensions.rs:206 clause="Time / DimensionlessInteger == the exact quotient truncated toward zero, for divisor != 0 and (dividend, divisor) != (i64::MIN, -1) (weakest precondition)"
 int_bin!(c18_time_div_dint, T, D, T, /, m_div, cvc5, (i64::MIN + 1, -1), (i64::MIN, 1));
 //@ob fn="<Time as Div<DimensionlessInteger>>::div" at=src/dimensions.rs:206 clause="divisor 0 or i64::MIN / -1 => panics"
@@ -185,13 +185,13 @@ int_assign!(c18_dint_sub_assign, D, D, -=, m_sub, cadical, (i64::MAX - 1, -1), (
 //@ob fn="<DimensionlessInteger as SubAssign>::sub_assign" at=src/dimensions.rs:295 clause="dev profile: difference outside i64 => panics"
 int_assign_outside!(c18_dint_sub_assign_outside_precondition_panics, D, D, -=, m_sub, cadical);
 //@ob fn="<DimensionlessInteger as Mul>::mul" at=src/dimensions.rs:300 clause="exact product whenever it is an i64 (weakest precondition)"
-int_bin!(c18_dint_mul, D, D, D, *, m_mul, cvc5, (i64::MAX / 7, 7), (i64::MIN / 2, 2));
+int_bin!(c18_dint_mul, D, D, D, *, m_mul, kissat, (i64::MAX / 7, 7), (i64::MIN / 2, 2));
 //@ob fn="<DimensionlessInteger as Mul>::mul" at=src/dimensions.rs:300 clause="dev profile: product outside i64 => panics"
-int_bin_outside!(c18_dint_mul_outside_precondition_panics, D, D, *, m_mul, cvc5);
+int_bin_outside!(c18_dint_mul_outside_precondition_panics, D, D, *, m_mul, kissat);
 //@ob fn="<DimensionlessInteger as MulAssign>::mul_assign" at=src/dimensions.rs:306 clause="exact product whenever it is an i64 (weakest precondition)"
-int_assign!(c18_dint_mul_assign, D, D, *=, m_mul, cvc5, (i64::MAX / 7, 7), (i64::MIN / 2, 2));
+int_assign!(c18_dint_mul_assign, D, D, *=, m_mul, kissat, (i64::MAX / 7, 7), (i64::MIN / 2, 2));
 //@ob fn="<DimensionlessInteger as MulAssign>::mul_assign" at=src/dimensions.rs:306 clause="dev profile: product outside i64 => panics"
-int_assign_outside!(c18_dint_mul_assign_outside_precondition_panics, D, D, *=, m_mul, cvc5);
+int_assign_outside!(c18_dint_mul_assign_outside_precondition_panics, D, D, *=, m_mul, kissat);
 //@ob fn="<DimensionlessInteger as Div>::div" at=src/dimensions.rs:311 clause="exact quotient truncated toward zero, for divisor != 0 and not i64::MIN / -1 (weakest precondition)"
 int_bin!(c18_dint_div, D, D, D, /, m_div, cvc5, (i64::MIN + 1, -1), (i64::MIN, 1));
 //@ob fn="<DimensionlessInteger as Div>::div" at=src/dimensions.rs:311 clause="divisor 0 or i64::MIN / -1 => panics"
@@ -205,24 +205,9 @@ int_neg!(c18_dint_neg, D);
 //@ob fn="<DimensionlessInteger as Neg>::neg" at=src/dimensions.rs:322 clause="dev profile: the negation of i64::MIN panics"
 int_neg_outside!(c18_dint_neg_outside_precondition_panics, D);
 //@ob fn="<DimensionlessInteger as Mul<Time>>::mul" at=src/dimensions.rs:328 clause="DimensionlessInteger * Time == the exact product as a Time, whenever it is an i64 (weakest precondition)"
-int_bin!(c18_dint_mul_time, D, T, T, *, m_mul, cvc5, (i64::MAX / 7, 7), (i64::MIN / 2, 2));
+int_bin!(c18_dint_mul_time, D, T, T, *, m_mul, kissat, (i64::MAX / 7, 7), (i64::MIN / 2, 2));
 //@ob fn="<DimensionlessInteger as Mul<Time>>::mul" at=src/dimensions.rs:328 clause="dev profile: product outside i64 => panics"
-int_bin_outside!(c18_dint_mul_time_outside_precondition_panics, D, T, *, m_mul, cvc5);
-
-//@ob fn="i64::checked_mul (oracle of the ten * obligations)" at=src/dimensions.rs:195 clause="oracle lemma: for all i64 a, b: a.checked_mul(b) is Some(p) exactly when the mathematical product computed in i128 lies in [i64::MIN, i64::MAX], and then p is that product"
-#[kani::proof]
-#[kani::solver(kissat)]
-fn c18_oracle_checked_mul_is_exact_product() {
-    let (a, b): (i64, i64) = (kani::any(), kani::any());
-    let m = a as i128 * b as i128;
-    match a.checked_mul(b) {
-        Some(p) => assert!(exact(m) && p as i128 == m),
-        None => assert!(!exact(m)),
-    }
-    kani::cover!((a, b) == (i64::MAX / 7, 7), "product i64::MAX");
-    kani::cover!((a, b) == (i64::MAX / 7 + 1, 7), "product i64::MAX + 7: not an i64");
-    reach!();
-}
+int_bin_outside!(c18_dint_mul_time_outside_precondition_panics, D, T, *, m_mul, kissat);
 
 macro_rules! i64_identity {
     ($name:ident, $A:ident) => {
